@@ -6,7 +6,19 @@ REAL_LOCK = ['kvs/distlock (rewritten copy)', 'kvs/inmem (rewritten copy) as the
 SIM_LOCK = SIM_COMMON + ['storage seam: per-node kvs.Storage wrapper that parks before and after every call and injects request-lost / reply-lost / partition / stall faults by call ordinal', 'context cancellation (canceller tasks released by the scheduler, or simulated timers)']
 ASSUME_LOCK = ['scheduler fairness bound F', 'interleavings at yield granularity (storage call boundaries, lock/channel/atomic/select inside distlock, inmem, timeout)', 'per-step jitter is capped at lease/(16*F) so the scheduler cannot starve a renewal past its lease']
 
+REAL_KV = ['kvs/inmem (rewritten copy)', 'kvs/redis client code (rewritten copy) + the real go-redis v8 client', 'ulidutils / oklog ulid (version generation)']
+SIM_KV = SIM_COMMON + ['Redis server: in-process miniredis (command semantics are its own), TCP listener closed', 'network: net.Pipe pairs with pump goroutines that park before every command delivery and every reply (command-level interleaving between connections)', 'Redis TTL clock: slaved to the simulated clock before every delivered command']
+ASSUME_KV = ['scheduler fairness bound F', 'interleavings at yield granularity: every lock/select/channel point in inmem; every command and reply delivery for Redis', 'miniredis stands in for Redis (as in the repository\'s own tests)']
+
 PROPS = {
+    'C02': dict(world='kv', quick=dict(budget_s=22), thorough=dict(budget_s=600), real=REAL_KV, simulated=SIM_KV,
+                assumptions=ASSUME_KV + ['histories are checked per key by porcupine against a sequential KV model (multi-key calls contribute one sub-operation per key); a timed-out check is counted inconclusive, never a violation']),
+    'C03': dict(world='kv', quick=dict(budget_s=22), thorough=dict(budget_s=600), real=REAL_KV, simulated=SIM_KV,
+                assumptions=ASSUME_KV + ['one client, no faults: the scheduler has nothing to choose on inmem; on Redis it orders command/reply deliveries of one connection', 'keys with a leading / are not generated (the Redis backend normalises them)', 'patterns restricted to the subset on which gobwas/glob and Redis globbing agree']),
+    'C06': dict(world='kv', quick=dict(budget_s=22), thorough=dict(budget_s=600), real=REAL_KV, simulated=SIM_KV,
+                assumptions=ASSUME_KV + ['within +-2ms of an expiry instant either answer is accepted (the backends legitimately differ at the boundary); the number of such comparisons is reported']),
+    'C07': dict(world='kv', quick=dict(budget_s=22), thorough=dict(budget_s=600), real=REAL_KV, simulated=SIM_KV,
+                assumptions=ASSUME_KV + ['writers are serialised by the harness (one mutation in flight) so the sequence of store states is known', 'promptness: inmem - a waiter whose return condition holds must not be parked when nothing is runnable; Redis - it must return within 250ms (2.5 x the documented maximal poll interval) plus the scheduler\'s own measured stall']),
     'C01': dict(world='lock', quick=dict(budget_s=22), thorough=dict(budget_s=600), real=REAL_LOCK, simulated=SIM_LOCK,
                 assumptions=ASSUME_LOCK + ['exclusion is judged only while the lease written by the holder is still valid (precondition of the property); runs where it lapsed are counted precondition_void']),
     'C04': dict(world='lock', quick=dict(budget_s=22), thorough=dict(budget_s=600), real=REAL_LOCK, simulated=SIM_LOCK,
